@@ -70,6 +70,7 @@ tier; each gave exit 1 with VIOLATION lines whose (obligation, signature) do not
 from __future__ import annotations
 
 import itertools
+import math
 from fractions import Fraction
 
 META = {
@@ -344,6 +345,26 @@ def _sweep_points_segments(rep, pp, quick):
                 if not dist_matches(dd[k], D2, RTOL * scale_of(pts[0], q)):
                     rep.violation("point_pointset: distance is exact", "3d integer points",
                                   inputs={"fn": "point_pointset", "p": pts[0], "set": pts}, detail=f"d[{k}]={dd[k]!r}, exact d^2={D2}")
+            # pointset (all mutual distances) on the same points, and on a copy of the cloud far away from the origin with small mutual
+            # distances (offsets k * 1e-3 around (3000.1, -7000.3, 1000.7))
+            for far in (False, True):
+                Q = [tuple(Fraction(c) for c in q) for q in pts]
+                if far:
+                    # (the oracle takes the exact rational value of each float coordinate; the coordinates are deliberately not dyadic)
+                    Q = [tuple(Fraction(float(bb) + 1e-3 * float(c)) for bb, c in zip((3000.1, -7000.3, 1000.7), q)) for q in Q]
+                M = pp.distances.pointset(np.array([[float(c) for c in q] for q in Q]).T)
+                for i1, a in enumerate(Q):
+                    for i2, b in enumerate(Q):
+                        D2 = dot(sub(a, b), sub(a, b))
+                        # relative to the distance itself (the inputs are exact): a distance of 1e-3 must not be off by 1e-8
+                        if np.shape(M) != (len(Q), len(Q)) or abs(float(M[i1, i2]) - math.sqrt(float(D2))) > 1e-9 * max(math.sqrt(float(D2)), 1e-300) + 1e-13:
+                            rep.violation("pointset: mutual distances are exact", "3d cloud far from the origin" if far else "3d integer points",
+                                          inputs={"fn": "pointset", "points": [[float(c) for c in q] for q in Q]},
+                                          detail=f"d[{i1},{i2}]={float(M[i1, i2]) if np.shape(M) == (len(Q), len(Q)) else np.shape(M)!r}, exact d^2={float(D2)!r}")
+                            break
+                    else:
+                        continue
+                    break
     with rep.sweep(
         "point_pointset 2-D exhaustive",
         rule="every integer point of [-2,2]^2 against the set of all 25 points (and against a single point: the reshape path); "
@@ -372,15 +393,20 @@ def _seg_class(a0, a1, b0, b1):
     return ("parallel" if par else "non-parallel") + (" touching/intersecting" if z else " apart")
 
 
-def check_segment_segment(rep, pp, dim, main, others, how):
+def check_segment_segment(rep, pp, dim, main, others, how, scale=1.0):
+    """scale: the whole configuration is multiplied by this factor before the call and the results divided by it afterwards (the
+    distance of segments is homogeneous of degree one): millimetre- and kilometre-size segments must be as exact as unit-size ones"""
     import numpy as np
 
     name = "segment_segment_set"
-    A = lambda L: np.array(L, dtype=float).T  # noqa: E731
+    A = lambda L: np.array(L, dtype=float).T * scale  # noqa: E731
     s, e = main
+    if scale != 1.0:
+        how = f"{how}, scaled by {scale:g}"
     try:
-        d, cp1, cp2 = pp.distances.segment_segment_set(np.array(s, dtype=float), np.array(e, dtype=float),
+        d, cp1, cp2 = pp.distances.segment_segment_set(np.array(s, dtype=float) * scale, np.array(e, dtype=float) * scale,
                                                        A([a for a, b in others]), A([b for a, b in others]))
+        d, cp1, cp2 = d / scale, cp1 / scale, cp2 / scale
     except Exception as ex:  # noqa: BLE001
         rep.violation(f"{name}: does not raise on admissible input", f"{dim}d [{how}]", inputs={"fn": name, "main": main, "set": others},
                       detail=f"{type(ex).__name__}: {ex}")
@@ -404,6 +430,35 @@ def check_segment_segment(rep, pp, dim, main, others, how):
         if not dist_matches(d[j], dot(r, r), 2 * tol):
             rep.violation(f"{name}: closest points realise d", f"{dim}d {cls} [{how}]", inputs=inp,
                           detail=f"main {main}, other {(a, b)}: |cp1-cp2|^2={float(dot(r, r))!r}, d={float(d[j])!r}")
+
+
+def check_segment_set(rep, pp, segs):
+    """distances.segment_set: the symmetric matrix of pairwise segment distances and the matching closest points"""
+    import numpy as np
+
+    name = "segment_set"
+    S = np.array([a for a, b in segs], dtype=float).T
+    E = np.array([b for a, b in segs], dtype=float).T
+    inp = {"fn": name, "set": segs}
+    try:
+        d, cp = pp.distances.segment_set(S, E)
+    except Exception as ex:  # noqa: BLE001
+        rep.violation(f"{name}: does not raise on admissible input", f"{len(segs)} segments in 3d", inputs=inp, detail=f"{type(ex).__name__}: {ex}")
+        return
+    n = len(segs)
+    for i in range(n):
+        for j in range(n):
+            if i == j:
+                continue
+            D2 = d2_seg_seg(segs[i][0], segs[i][1], segs[j][0], segs[j][1])
+            tol = RTOL * scale_of(segs[i][0], segs[i][1], segs[j][0], segs[j][1])
+            if np.shape(d) != (n, n) or not dist_matches(d[i, j], D2, tol):
+                rep.violation(f"{name}: pairwise distances are exact", "3d", inputs=inp, detail=f"pair {(i, j)}: returned {np.asarray(d).tolist()}, exact d^2={D2}")
+                return
+            r = sub(F(cp[i, j]), F(cp[j, i]))
+            if not dist_matches(d[i, j], dot(r, r), 2 * tol):
+                rep.violation(f"{name}: closest points realise the distance", "3d", inputs=inp, detail=f"pair {(i, j)}: cp {cp[i, j].tolist()} / {cp[j, i].tolist()}")
+                return
 
 
 def _sweep_segment_segment(rep, pp, quick):
@@ -454,6 +509,10 @@ def _sweep_segment_segment(rep, pp, quick):
                 if a != b and all(abs(c) <= 6 for c in b):
                     others.append((a, b))
             check_segment_segment(rep, pp, 3, (s, e), others, "set of 6")
+            if _ % 5 == 0:
+                check_segment_segment(rep, pp, 3, (s, e), others, "set of 6", scale=1e-4 if _ % 10 == 0 else 1e3)
+            if _ % 25 == 0:
+                check_segment_set(rep, pp, [(s, e)] + others[:3])
             sw.case(key=((s, e), tuple(others)), nontrivial=any(_seg_class(s, e, a, b) != "non-parallel apart" for a, b in others),
                     sample={"main": (s, e), "set": others})
 
